@@ -34,6 +34,8 @@ class CompatLaws (F : Type) [FloatOps F] : Prop where
   /-- integers between two integers that convert to floats convert -/
   ofInt_between : ∀ (lo i hi : Int) (a b : F), ofInt lo = some a → ofInt hi = some b → lo ≤ i → i ≤ hi →
     ∃ x : F, ofInt i = some x
+  /-- integers within the internal integer limit `±UNLIMITED = ±2^64` convert to floats -/
+  ofInt_intLimit : ∀ i : Int, -DType.intLimit ≤ i → i ≤ DType.intLimit → ∃ x : F, ofInt i = some x
   div_notNaN : ∀ x s : F, isFinite x = true → isFinite s = true → positive s = true → isNaN (div x s) = false
   /-- the tolerance is a number ≥ 0 -/
   tol_nonneg : ∀ rr ar x : F, isFinite rr = true → nonneg rr = true → isFinite ar = true → nonneg ar = true →
